@@ -25,6 +25,15 @@ pub fn lattice_spaces<O: Oracle + Clone + 'static>(tier: Tier, oracle: O, label:
     for sk in tiny_skeletons().into_iter().chain(small_shapes()).chain(extnum_shapes()) {
         v.push(Box::new(Single { p: PreparedSkeleton::new(sk, &all_sites), oracle: oracle.clone(), label }));
     }
+    // wide objects (110 sections with every special kind twice, 204 segments): k <= 1 on the file
+    // header, shdr[0], the special sections' headers and the non-PT_LOAD program headers
+    for (i, sk) in wide_shapes().into_iter().enumerate() {
+        // quick: ELF64-LSB and ELF32-MSB
+        if tier == Tier::Quick && !(i / 2 == 1 || i / 2 == 2) {
+            continue;
+        }
+        v.push(Box::new(Single { p: PreparedSkeleton::new(sk, &all_sites), oracle: oracle.clone(), label }));
+    }
     // samples: k <= 1 on the file header (quick) / all header and table fields (thorough)
     for sk in sample_skeletons() {
         let p = if tier == Tier::Quick { PreparedSkeleton::new(sk, &ehdr_sites) } else { PreparedSkeleton::new(sk, &header_sites) };
@@ -52,8 +61,8 @@ pub fn lattice_spaces<O: Oracle + Clone + 'static>(tier: Tier, oracle: O, label:
         }
     }
     let text = match tier {
-        Tier::Quick => "k<=1: every site (header, table and deep body sites) of 8 tiny-full + 12 small + 4 extended-numbering skeletons, ehdr sites of the 10 samples; k=2: ehdr x (ehdr | shdr[0]) pairs of the small and extended-numbering shapes",
-        Tier::Thorough => "k<=1: as quick plus every shdr/phdr field of the 10 samples; k=2: all header-field pairs of the small and extended-numbering shapes, and all coupled pairs (same header; ehdr x any header; body word x own header) of all 8 tiny-full skeletons; k=3: all triples of the 10 table-locating fields (e_phoff, e_shoff, e_*entsize, e_*num, e_shstrndx, shdr[0].sh_size/sh_link/sh_info) of the extended-numbering and shdrs-only shapes",
+        Tier::Quick => "k<=1: every site (header, table and deep body sites) of 8 tiny-full + 12 small + 4 extended-numbering skeletons, the header / special-section / non-PT_LOAD segment sites of 4 wide objects (110 sections with every special kind twice, 204 segments; with and without section headers), ehdr sites of the 10 samples; k=2: ehdr x (ehdr | shdr[0]) pairs of the small and extended-numbering shapes",
+        Tier::Thorough => "k<=1: as quick plus all 8 wide objects and every shdr/phdr field of the 10 samples; k=2: all header-field pairs of the small and extended-numbering shapes, and all coupled pairs (same header; ehdr x any header; body word x own header) of all 8 tiny-full skeletons; k=3: all triples of the 10 table-locating fields (e_phoff, e_shoff, e_*entsize, e_*num, e_shstrndx, shdr[0].sh_size/sh_link/sh_info) of the extended-numbering and shdrs-only shapes",
     };
     (v, LatticeBounds { text: text.to_string() })
 }
